@@ -149,7 +149,7 @@ def run_sync(spec: dict, history: List[list], opts: Optional[dict] = None) -> Ru
             it = iter(opts["choices"])
             chooser = lambda names: next(it, 0)  # noqa
         sched = vthreads.Sched(chooser=chooser, yield_on_start=opts.get("yield_on_start", True))
-    rec = Recorder(budget=opts.get("budget", 20000), clock=(lambda: sched.now) if sched else None)
+    rec = Recorder(budget=opts.get("budget", 5000), clock=(lambda: sched.now) if sched else None)
     rec.fault_plan = set(opts.get("faults") or [])
     rec.record_sites = bool(opts.get("record_sites"))
     run.rec = rec
@@ -299,7 +299,7 @@ def run_async(spec: dict, history: List[list], opts: Optional[dict] = None) -> R
     holder = {}
 
     async def main(loop):
-        rec = Recorder(budget=opts.get("budget", 20000), clock=loop.time)
+        rec = Recorder(budget=opts.get("budget", 5000), clock=loop.time)
         rec.fault_plan = set(opts.get("faults") or [])
         rec.record_sites = bool(opts.get("record_sites"))
         run.rec = rec
@@ -398,7 +398,7 @@ def run_pure(spec: dict, history: List[list], opts: Optional[dict] = None) -> Ru
 
     opts = opts or {}
     run = Run("pure")
-    rec = Recorder(budget=opts.get("budget", 20000))
+    rec = Recorder(budget=opts.get("budget", 5000))
     run.rec = rec
     try:
         cfg, logic = build(spec, rec)
